@@ -626,7 +626,11 @@ class StmtMixin:
         h.assume(S.lift(ls.inv(self.inv_ctx(h, pre, {}))))
         outs = []
         if not self.feasible(h):
-            raise EngineError("loop %d invariant is unsatisfiable after havoc (L%d)" % (ordn, s.lineno))
+            # either the path reaching the loop is infeasible, or the invariant is contradictory; the second
+            # case is caught after the run (a loop none of whose heads is satisfiable is an engine error)
+            self.loop_heads.setdefault(ordn, [0, 0])[1] += 1
+            return outs
+        self.loop_heads.setdefault(ordn, [0, 0])[0] += 1
         exits = []
         for s1, c in self.ev(s.test, h, exc):
             t, f = self.branch(s1, S.truthy(c))
@@ -696,7 +700,9 @@ class StmtMixin:
                 self.track(h, pv)
             h.assume(S.lift(ls.inv(self.inv_ctx(h, pre, extra_for(i)))))
             if not self.feasible(h):
-                raise EngineError("loop %d invariant is unsatisfiable after havoc (L%d)" % (ordn, s.lineno))
+                self.loop_heads.setdefault(ordn, [0, 0])[1] += 1
+                return outs
+            self.loop_heads.setdefault(ordn, [0, 0])[0] += 1
             body_st, exit_st = self.branch(h, i < n)
             if body_st is not None:
                 x = elem_of(i, body_st)
@@ -741,7 +747,9 @@ class StmtMixin:
             h.assume(z3.IsSubset(d.t, setv.t))
             h.assume(S.lift(ls.inv(self.inv_ctx(h, pre, {done_name: d}))))
             if not self.feasible(h):
-                raise EngineError("loop %d invariant is unsatisfiable after havoc (L%d)" % (ordn, s.lineno))
+                self.loop_heads.setdefault(ordn, [0, 0])[1] += 1
+                return outs
+            self.loop_heads.setdefault(ordn, [0, 0])[0] += 1
             body_st, exit_st = self.branch(h, V(BOOL, d.t != setv.t))
             if body_st is not None:
                 k = so.elem.fresh("k")
